@@ -20,6 +20,9 @@ if [ -f $OUT/equiv.py ]; then timeout 900 /venv/bin/python $OUT/equiv.py $WT > $
 if ! git apply $OUT/patch.diff 2> $OUT/apply.err; then echo "APPLY FAILED"; cat $OUT/apply.err; fi
 if [ -f $OUT/equiv.py ]; then
   timeout 900 /venv/bin/python $OUT/equiv.py $WT > $TMPDIR/eq_patched.txt 2>&1
+  # (lines in which the author's script reports its own wall time are not results)
+  grep -v -E '^\[[A-Za-z ]+:? ?[0-9.]+ ?s\]$' $TMPDIR/eq_clean.txt > $TMPDIR/eq_clean.f; grep -v -E '^\[[A-Za-z ]+:? ?[0-9.]+ ?s\]$' $TMPDIR/eq_patched.txt > $TMPDIR/eq_patched.f
+  mv $TMPDIR/eq_clean.f $TMPDIR/eq_clean.txt; mv $TMPDIR/eq_patched.f $TMPDIR/eq_patched.txt
   if cmp -s $TMPDIR/eq_clean.txt $TMPDIR/eq_patched.txt; then EQ='"identical"'; else EQ='"DIFFERENT"'; diff $TMPDIR/eq_clean.txt $TMPDIR/eq_patched.txt | head -20 > $OUT/equiv_diff.txt; fi
   tail -3 $TMPDIR/eq_clean.txt > $OUT/equiv_clean_tail.txt
 fi
